@@ -132,6 +132,15 @@ func (vc *VC) libCall(fr *frame, n *Node, x *ssa.Call, callee *ssa.Function, arg
 			return true
 		}
 		return false
+	case "regexp.Compile":
+		trust("regexp.Compile: returns a non-nil *Regexp exactly when the error is nil; never panics")
+		rs := vc.freshResults(n, x.Name(), sig)
+		vc.assume(fmt.Sprintf("(= (= %s nil.iface) (not (= (p.obj %s) 0)))", rs[1].T, rs[0].T))
+		wm := vc.decl("wm.c", "Int")
+		vc.assume(fmt.Sprintf("(>= %s %s)", wm, st.wm))
+		st.wm = wm
+		vc.bindResult(n, x, sig, rs)
+		return true
 	case "(*regexp.Regexp).MatchString":
 		trust("regexp match = an arbitrary but fixed predicate of (pattern object, string)")
 		vc.defVal(n, x, e.uf("re.match", []string{"Ptr", "Str"}, "Bool", args[0].T, args[1].T))
